@@ -120,11 +120,68 @@ def run(ctx, report: Report) -> None:
     mmod = src.mod('css_match')
 
     # ---- R1 --------------------------------------------------------------------------------------------
-    r1 = report.rule('C04-R1', 'no expression of a bs4 type is mutated or escapes', floor=117)
+    r1 = report.rule('C04-R1', 'no expression of a bs4 type is mutated or escapes', floor=58)
     census = {}
     any_gaps = []
+
+    def from_doc(mn, mod, fnq, e, depth=0):
+        """Is `e` a document object or a container owned by one (`el.contents`, `el.attrs`, a local bound to one of these)?"""
+        t = tf.type_of(mn, e)
+        if t is not None and tf.is_bs4(t):
+            return True
+        if isinstance(e, (ast.Attribute, ast.Subscript)):
+            return from_doc(mn, mod, fnq, e.value, depth)
+        if isinstance(e, ast.Name) and depth < 3:
+            fnode = mod.functions.get(fnq)
+            if fnode is not None:
+                for st in walk_no_nested(fnode):
+                    if isinstance(st, (ast.Assign, ast.AnnAssign)) and st.value is not None and any(
+                            isinstance(t_, ast.Name) and t_.id == e.id for t_ in (st.targets if isinstance(st, ast.Assign) else [st.target])):
+                        if isinstance(st.value, (ast.Attribute, ast.Subscript)) and from_doc(mn, mod, fnq, st.value, depth + 1):
+                            return True
+        return False
+
+    def bound_in(mod, fnq, name):
+        """Is `name` a parameter or local of the enclosing function(s) (so a call through it is an indirect call)?"""
+        q = fnq
+        while q and q != '<module>':
+            fnode = mod.functions.get(q)
+            if fnode is not None:
+                a = fnode.args
+                if name in {x.arg for x in a.args + a.kwonlyargs + a.posonlyargs + ([a.vararg] if a.vararg else []) + ([a.kwarg] if a.kwarg else [])}:
+                    return True
+                for st in walk_no_nested(fnode):
+                    if isinstance(st, ast.Name) and isinstance(st.ctx, ast.Store) and st.id == name:
+                        return True
+            q = q.rsplit('.', 1)[0] if '.' in q else ''
+        return False
+
+    # callables that can change an object they are handed; the package must not even mention them as values, so that a call
+    # through a variable, a table entry or a parameter (which can only hold a callable the package mentions somewhere, a
+    # package function or lambda, or an accessor checked above) cannot reach one
+    IMPURE_CALLABLES = {'setattr', 'delattr', 'exec', 'eval', 'vars', 'globals', 'locals', '__import__',
+                        'operator.setitem', 'operator.delitem', 'operator.iadd', 'operator.iconcat', 'operator.methodcaller',
+                        'operator.attrgetter', 'list.append', 'list.extend', 'list.insert', 'list.remove', 'list.pop', 'list.clear', 'list.sort',
+                        'list.reverse', 'dict.update', 'dict.pop', 'dict.clear', 'dict.setdefault', 'dict.popitem', 'copy.copy', 'copy.deepcopy'}
     for mn, mod in src.mods.items():
         for node in ast.walk(mod.tree):
+            if isinstance(node, (ast.Name, ast.Attribute)) and isinstance(node.ctx, ast.Load):
+                par = mod.parents.get(node)
+                if not (isinstance(par, ast.Call) and par.func is node) and not (isinstance(par, ast.Attribute)):
+                    txt = unparse(node)
+                    head = txt.split('.')[0]
+                    al = mod.aliases.get(head)
+                    full = txt
+                    if al is not None and al[0] == 'module' and not al[2]:
+                        full = al[1] + txt[len(head):]
+                    elif al is not None and al[0] == 'symbol' and not al[3]:
+                        full = f'{al[1]}.{al[2]}' + txt[len(head):]
+                    fnq_ = mod.enclosing_function(node) or '<module>'
+                    if full in IMPURE_CALLABLES and not (isinstance(node, ast.Name) and bound_in(mod, fnq_, node.id)):
+                        r1.instance({'site': f'{mn}.{fnq_}', 'callable_mentioned_as_value': full}, key=f'{mn}.{fnq_}|value|{full}')
+                        r1.violation(f'{mn}.{fnq_} mentions {full} as a value', mod.where(node),
+                                     f'{mn}.{fnq_}: `{unparse(par)[:70]}` takes `{full}` as a value; called through a variable or a '
+                                     f'table it can change whatever it is handed, and document objects are handed to such indirect callees')
             # stores / deletes through a bs4-typed base
             targets = []
             if isinstance(node, ast.Assign):
@@ -140,7 +197,7 @@ def run(ctx, report: Report) -> None:
                         bt = tf.type_of(mn, base)
                         fnq = mod.enclosing_function(node) or '<module>'
                         is_own_init = fnq.endswith('.__init__') and isinstance(base, ast.Name) and base.id == 'self'
-                        if bt is not None and (tf.is_bs4(bt) or 'bs4.element' in tf.show(bt)) and not is_own_init:
+                        if bt is not None and from_doc(mn, mod, fnq, base) and not is_own_init:
                             r1.instance({'site': f'{mn}.{fnq}', 'store_through': unparse(tt), 'type': tf.show(bt)},
                                         key=f'{mn}.{fnq}|store|{unparse(tt)}')
                             r1.violation(f'{mn}.{fnq} writes {unparse(tt)}', mod.where(node),
@@ -185,7 +242,9 @@ def run(ctx, report: Report) -> None:
                                 defs.extend(lp.iter.elts if isinstance(lp.iter, (ast.Tuple, ast.List)) else [lp.iter])
                         alias_of_method = bool(defs) and all(isinstance(d, ast.Attribute) and isinstance(d.value, ast.Name)
                                                              and d.value.id in ('self', 'cls') for d in defs if d is not None)
-                    internal = alias_of_method or cn.startswith(('self.', 'cls.')) or cn.split('.')[0] in ('cm', 'ct', 'cp', 'util') \
+                    indirect = (isinstance(node.func, ast.Name) and bound_in(mod, fnq, node.func.id)) or isinstance(
+                        node.func, (ast.Subscript, ast.Call, ast.IfExp))
+                    internal = alias_of_method or indirect or cn.startswith(('self.', 'cls.')) or cn.split('.')[0] in ('cm', 'ct', 'cp', 'util') \
                         or cn in mod.functions or cn.split('.')[-1] in {q.split('.')[-1] for q in mmod.functions} \
                         or cn in ('CSSMatch', '_FakeParent') or cn.endswith('.match') or cn.endswith('.search')
                     ok = internal or cn in PURE_EXTERNAL or cn.split('.')[-1] in ('append', 'extend', 'join')
@@ -254,7 +313,7 @@ def run(ctx, report: Report) -> None:
                 nontrivial=False)
 
     # ---- R2 --------------------------------------------------------------------------------------------
-    r2 = report.rule('C04-R2', 'matcher state is per call', floor=7)
+    r2 = report.rule('C04-R2', 'matcher state is per call', floor=3)
     # decision table of the SoupSieve methods with a recording stand-in for CSSMatch: one fresh matcher per call target,
     # scoped on that target, never shared between the items of an iterable
     from .sem import soupsieve_methods_table
@@ -281,7 +340,7 @@ def run(ctx, report: Report) -> None:
     r2.instance({'functions_reachable_from_matching_api': len(reach)}, key='reach', nontrivial=False)
 
     # ---- R3 --------------------------------------------------------------------------------------------
-    r3 = report.rule('C04-R3', 'memo tables are transparent', floor=14)
+    r3 = report.rule('C04-R3', 'memo tables are transparent', floor=7)
     _, init = src.func('css_match.CSSMatch.__init__')
     memos = {}
     for st in walk_no_nested(init):
@@ -342,7 +401,7 @@ def run(ctx, report: Report) -> None:
         f.rule = 'C04-R3'
 
     # ---- R4 --------------------------------------------------------------------------------------------
-    r4 = report.rule('C04-R4', 'temporary matcher state is restored in the activation that changed it', floor=32)
+    r4 = report.rule('C04-R4', 'temporary matcher state is restored in the activation that changed it', floor=16)
     n_swaps = 0
     for q, fn in mmod.functions.items():
         if not q.startswith('CSSMatch.') or q.endswith('.__init__') or q.count('.') != 1:
